@@ -731,7 +731,9 @@ theorem serCDX_forest (d : Document) (md : Metadata) (nl : NodeList) (root : Str
     ∃ (b : Bom) (placed : List String), serCDX d = .ok b ∧ (∀ x, x ∈ placed ↔ nested x) ∧
       b.components = clearAutoL (((dictOf nl.nodes).filter (fun kv => decide (kv.1 ∉ placed))).map
         (fun kv => T (childrenOf p1) c0 ht kv.1)) ∧
-      b.deps = p1.deps := by
+      b.deps = p1.deps ∧
+      b.metaComponent = some (if md.name ≠ "" ∧ (nodeToComponent rootNode).name = ""
+        then (nodeToComponent rootNode).withName md.name else nodeToComponent rootNode) := by
   intro c0 nested
   have hne : nl.roots.isEmpty = false := by rw [hroots]; rfl
   have hlen : ¬ nl.roots.length > 1 := by rw [hroots]; simp
@@ -769,13 +771,15 @@ theorem serCDX_forest (d : Document) (md : Metadata) (nl : NodeList) (root : Str
         (fun kv => (nl.nodes.foldl (fun st n => if n.id = root then st else
             nest (fun id => (p1.children.lookup id).getD []) ((dictOf nl.nodes).length + 2) n.id [] st)
             { placed := [rootNode.id], built := [], comps := dictOf nl.nodes }).comp kv.1)) ∧
-      b.deps = p1.deps := by
+      b.deps = p1.deps ∧
+      b.metaComponent = some (if md.name ≠ "" ∧ (nodeToComponent rootNode).name = ""
+        then (nodeToComponent rootNode).withName md.name else nodeToComponent rootNode) := by
     unfold serCDX
     simp only [hmd, hnl, hne, hlen, hhead, hroot, hlc, hp1, Outcome.bind, if_false, Bool.false_eq_true]
-    exact ⟨_, rfl, rfl, rfl⟩
-  obtain ⟨b, hb1, hb2, hb3⟩ := hser
+    exact ⟨_, rfl, rfl, rfl, rfl⟩
+  obtain ⟨b, hb1, hb2, hb3, hb4⟩ := hser
   refine ⟨b, (visit (childrenOf p1) ((dictOf nl.nodes).length + 2) root (nl.nodes.map (·.id))
-      { placed := [root], built := [], comps := dictOf nl.nodes }).placed, hb1, hplaced, ?_, hb3⟩
+      { placed := [root], built := [], comps := dictOf nl.nodes }).placed, hb1, hplaced, ?_, hb3, hb4⟩
   rw [hb2, hrid]
   have := hvisit { placed := [root], built := [], comps := dictOf nl.nodes } ((dictOf nl.nodes).length + 2)
   have hco : (fun id => (p1.children.lookup id).getD []) = childrenOf p1 := rfl
